@@ -142,6 +142,9 @@ def host_main(case_path, out_path):
         restarted = set()
         nrun = [0]
         stick_n = [0]
+        closed = [False]
+        prev_unreg = [0]
+        alive_reg = [0]
 
         def hostkw(kind):
             return {'host': srv.addr} if kind == 'remote' else {}
@@ -183,6 +186,9 @@ def host_main(case_path, out_path):
             last, t_same, t0 = None, time.monotonic(), time.monotonic()
             while True:
                 owned_alive = sorted(p for w in ws if w.get('owned') and w['kind'] != 'thread' for p in w['pids'] if not _proc_dead(p))
+                regobjs = list(pool.workers)
+                alive_reg[0] = len([1 for w in ws if w.get('owned') and w['kind'] != 'thread' and any(o is w['obj'] for o in regobjs)
+                                    and w['pids'] and not _proc_dead(w['pids'][-1])])
                 regpids = set()
                 for o in list(pool.workers):
                     try:
@@ -201,7 +207,7 @@ def host_main(case_path, out_path):
 
         for op in ops:
             name, _, arg = op.partition(':')
-            st = {'op': name, 'outcome': 'ok', 'closing': 'F', 'extra': 0, 'dead_got_work': 0, 'restarted_no_work': 0}
+            st = {'op': name, 'outcome': 'ok', 'closing': 'F', 'extra': 0, 'dead_got_work': 0, 'restarted_no_work': 0, 'spoiled': 0}
             if name in ('add', 'attach'):
                 kind = arg
                 if name == 'add':
@@ -243,8 +249,14 @@ def host_main(case_path, out_path):
                 dead_before = set(id(w['obj']) for w in ws if 'obj' in w and not os_alive(w))
                 live_restarted = set(id(w['obj']) for w in ws if 'obj' in w and id(w['obj']) in restarted and os_alive(w)
                                      and any(o is w['obj'] for o in pool.workers))
-                enq = []
-                oc, r = bounded(lambda: pool.run(iter(inputs), worker_callback=lambda wk, ev, *a: enq.append(id(wk)) if ev == 'enqueued' else None))
+                enq = []          # (worker, input) pairs actually handed over, logged through the public enqueue_fn hook
+
+                def efn(wk, *inp):
+                    wk.enqueue(*inp)
+                    enq.append((id(wk), inp[0] if inp else None))
+                    return True
+                live_before = [w for w in ws if 'obj' in w and os_alive(w) and any(o is w['obj'] for o in pool.workers)]
+                oc, r = bounded(lambda: pool.run(iter(inputs), enqueue_fn=efn))
                 st['outcome'] = oc
                 got = []
                 if oc == 'ok' and r is not None:
@@ -258,12 +270,16 @@ def host_main(case_path, out_path):
                         left.remove(g)
                     else:
                         extra += 1
+                extra += len([1 for _w, x in enq if x not in inputs])        # inputs of another run handed to a worker
                 st['extra'] = extra
-                st['dead_got_work'] = len(set(enq) & dead_before)
+                enq_w = set(w_ for w_, _x in enq)
+                st['dead_got_work'] = len(enq_w & dead_before)
                 if oc == 'ok':
-                    st['restarted_no_work'] = len([x for x in live_restarted if x not in set(enq)])
+                    st['restarted_no_work'] = len([x for x in live_restarted if x not in enq_w])
                     if r is not None and left:
                         st['missing'] = len(left)
+                if (name == 'run' and oc == 'raised' and not closed[0] and live_before and all(os_alive(w) for w in live_before)):
+                    st['spoiled'] = 1
                 restarted.clear()
                 if oc == 'raised':
                     st['exc'] = type(r).__name__
@@ -317,6 +333,8 @@ def host_main(case_path, out_path):
                 else:
                     oc, r = bounded(lambda: pool.__exit__(RuntimeError, RuntimeError('exception in the with-body'), None))
                 st['outcome'] = oc
+                if oc == 'ok':
+                    closed[0] = True
                 if oc == 'raised':
                     st['exc'] = type(r).__name__
             else:
@@ -324,7 +342,9 @@ def host_main(case_path, out_path):
             if st['outcome'] == 'raised' and 'exc' not in st:
                 st['exc'] = type(r).__name__
             a, u, upids = measure()
-            st['alive_owned'], st['live_unreg'] = a, u
+            st['alive_owned'], st['live_unreg'], st['live_unreg_abs'] = a, max(0, u - prev_unreg[0]), u      # live_unreg: caused by THIS call
+            prev_unreg[0] = u
+            st['alive_reg'] = alive_reg[0]
             if u:
                 st['unreg_cmds'] = [_cmdline(p)[-60:] for p in upids][:3]
             st['is_alive'] = []
@@ -472,7 +492,7 @@ def _run_hosts(cases, scratch, par=12):
     return outs
 
 
-_KEYS = ('op', 'outcome', 'closing', 'alive_owned', 'live_unreg', 'extra', 'dead_got_work', 'restarted_no_work')
+_KEYS = ('op', 'outcome', 'closing', 'alive_owned', 'live_unreg', 'extra', 'dead_got_work', 'restarted_no_work', 'spoiled')
 
 
 def _record(case, out):
@@ -517,6 +537,7 @@ def run(prop, tier, replay=None):
         'pre_closed': dict(cfg=_mc_cfg(MaxOps='4', Fix='FixNoClosed'), workers=2, expect='invariant:Inv_AllDead', label='without the closed-pool guard (must be rejected)'),
         'whatif_reuse': dict(cfg=_mc_cfg(MaxOps='4', ReuseKeys='TRUE'), workers=2, expect='invariant:Inv_RestartedGetWork', label='what-if: restart keeps the worker id (must be rejected)'),
         'whatif_noreinit': dict(cfg=_mc_cfg(MaxOps='4', NoReinit='TRUE'), workers=2, expect='invariant:Inv_RunIsolated', label='what-if: run does not reset _retries (must be rejected)'),
+        'whatif_norekey': dict(cfg=_mc_cfg(MaxOps='4', NoRekey='TRUE'), workers=2, expect='invariant:Inv_RunIsolated', label='what-if: restart_workers does not re-key (must be rejected)'),
     }
     for w in ('W_ClosedWithStuck', 'W_RestartAfterDeath', 'W_DupRaised', 'W_RunAfterPoison', 'W_ForceFalseSurvivor'):
         jobs[w] = dict(cfg=_mc_cfg(MaxOps='5') + 'INVARIANT ' + w + '\n', workers=2, expect='invariant:' + w, label='witness ' + w)
@@ -596,10 +617,11 @@ def run(prop, tier, replay=None):
         if any(x in ('close', 'terminate', 'exc') for x in prev) and any(x in ('add', 'attach') for x in prev[min(i for i, x in enumerate(prev) if x in ('close', 'terminate', 'exc')):]):
             ctx.append('add-after-close')
         kinds_ = sorted(set(o.partition(':')[2] for o in case['ops'] if o.startswith(('add:', 'attach:'))))
-        sig = 'C09|%s|op=%s|ctx=%s|force=%s|outcome=%s|alive_owned=%s|live_unreg=%s|extra=%d|deadwork=%d|norestartwork=%d' % (
-            name, s['op'], '+'.join(ctx) or 'plain', case['force'], s['outcome'], 'some' if s['alive_owned'] else '0',
-            'some' if s['live_unreg'] else '0', s['extra'], s['dead_got_work'], s['restarted_no_work'])
-        what = ('%s fails at step %d (%s) of history %s (force=%s, kinds %s): outcome %s, %d owned process/remote worker(s) alive, %d live process(es) not registered%s, '
+        sig = 'C09|%s|op=%s|ctx=%s|force=%s|outcome=%s|alive_owned=%s|live_unreg=%s|extra=%d|deadwork=%d|norestartwork=%d|spoiled=%d' % (
+            name, s['op'], '+'.join(ctx) or 'plain', case['force'], s['outcome'],
+            '0' if not s['alive_owned'] else 'unregistered' if not s.get('alive_reg') else 'registered' if s.get('alive_reg') == s['alive_owned'] else 'mixed',
+            'some' if s['live_unreg'] else '0', s['extra'], s['dead_got_work'], s['restarted_no_work'], s.get('spoiled', 0))
+        what = ('%s fails at step %d (%s) of history %s (force=%s, kinds %s): outcome %s, %d owned process/remote worker(s) alive, %d live process(es) newly outside pool.workers%s, '
                 'extra results %d, dead workers handed work %d, restarted workers without work %d'
                 % (name, k, case['ops'][k - 1], case['ops'], case['force'], kinds_, s['outcome'], s['alive_owned'], s['live_unreg'],
                    (' ' + str(s.get('unreg_cmds'))) if s.get('unreg_cmds') else '', s['extra'], s['dead_got_work'], s['restarted_no_work']))
